@@ -323,14 +323,19 @@ pub fn cli(ctx: &Ctx) -> Stats {
         let sc = Scratch::new(ctx, "c11c");
         let inp = sc.write("in.fa", &ser::to_fasta(&recs, &SerOpts::plain()));
         let outp = sc.path("out.cgr");
-        let mut args = sv(&["comp", "cgr", "-i", &inp, "-o", &outp, "-t", &rng.usize(0, 16).to_string()]);
+        let use_stdin = idx % 3 == 1;
+        let raw = std::fs::read(&inp).unwrap_or_default();
+        let mut args = sv(&["comp", "cgr", "-i", if use_stdin { "-" } else { &inp }, "-o", &outp, "-t", &rng.usize(0, 16).to_string()]);
         if let Some(s) = s {
             args.push("-v".into());
             args.push(s.to_string());
         }
+        if use_stdin {
+            st.class("stdin");
+        }
         let case = || Json::obj().set("argv", Json::s(args.join(" "))).set("records", recs_json(&recs));
         st.case(true, mix(idx) ^ hash_bytes(args.join(" ").as_bytes()));
-        let res = run_cli(ctx, &args, None, &CliLimits::default());
+        let res = run_cli(ctx, &args, if use_stdin { Some(&raw) } else { None }, &CliLimits::default());
         if res.timed_out && !res.cpu_exceeded && !res.stalled {
             st.inconclusive(format!("CLI watchdog: {}", res.describe()));
             return;
@@ -349,7 +354,24 @@ pub fn cli(ctx: &Ctx) -> Stats {
             match parse_points(l, 2) {
                 Ok(p) => {
                     let pts: Vec<(f64, f64)> = p.iter().map(|v| (v[0], v[1])).collect();
-                    if let Err((sig, msg)) = check_points(&rec.seq, s.unwrap_or(1), &pts) {
+                    // without -v only consistency with *some* square size is demanded (the default is not part
+                    // of the property): infer S from the very first point
+                    let s_eff = match s {
+                        Some(v) => v,
+                        None => {
+                            let first = recs.iter().find(|r| !r.seq.is_empty());
+                            let fp = ls.iter().zip(recs.iter()).find(|(_, r)| !r.seq.is_empty()).and_then(|(l, _)| parse_points(l, 2).ok()).and_then(|p| p.first().cloned());
+                            match (first, fp) {
+                                (Some(r), Some(p0)) => {
+                                    let x_corner_zero = matches!(r.seq[0], b'A' | b'a' | b'C' | b'c');
+                                    let sz = if x_corner_zero { p0[0] * 4.0 } else { p0[0] * 4.0 / 3.0 };
+                                    if sz >= 1.0 && sz.fract() == 0.0 { sz as u64 } else { 1 }
+                                }
+                                _ => 1,
+                            }
+                        }
+                    };
+                    if let Err((sig, msg)) = check_points(&rec.seq, s_eff, &pts) {
                         st.violate(&format!("cli.{}", sig), format!("row {}: {}", i, msg), case());
                         return;
                     }
@@ -511,7 +533,9 @@ pub fn kcgr_cli(ctx: &Ctx) -> Stats {
         let sc = Scratch::new(ctx, "c12c");
         let inp = sc.write("in.fa", &ser::to_fasta(&recs, &SerOpts::plain()));
         let outp = sc.path("out.cgr");
-        let mut args = sv(&["comp", "cgr", "-i", &inp, "-o", &outp, "-k", &k.to_string(), "-t", &rng.usize(0, 16).to_string()]);
+        let use_stdin = idx % 3 == 1;
+        let raw = std::fs::read(&inp).unwrap_or_default();
+        let mut args = sv(&["comp", "cgr", "-i", if use_stdin { "-" } else { &inp }, "-o", &outp, "-k", &k.to_string(), "-t", &rng.usize(0, 16).to_string()]);
         if !norm {
             args.push("-c".into());
         }
@@ -519,10 +543,13 @@ pub fn kcgr_cli(ctx: &Ctx) -> Stats {
             args.push("-v".into());
             args.push(s.to_string());
         }
+        if use_stdin {
+            st.class("stdin");
+        }
         let case = || Json::obj().set("argv", Json::s(args.join(" "))).set("records", recs_json(&recs));
         let windows: usize = recs.iter().map(|r| model::windows(&r.seq, k).len()).sum();
         st.case(windows > 0, mix(idx) ^ hash_bytes(args.join(" ").as_bytes()));
-        let res = run_cli(ctx, &args, None, &CliLimits::default());
+        let res = run_cli(ctx, &args, if use_stdin { Some(&raw) } else { None }, &CliLimits::default());
         if res.timed_out && !res.cpu_exceeded && !res.stalled {
             st.inconclusive(format!("CLI watchdog: {}", res.describe()));
             return;
@@ -532,8 +559,12 @@ pub fn kcgr_cli(ctx: &Ctx) -> Stats {
             return;
         }
         let data = std::fs::read(&outp).unwrap_or_default();
-        // documented default square size for k-mer mode: k^2
-        let s_eff = s.unwrap_or((k * k) as u64);
+        // without -v the square size is whatever the CLI defaults to (not part of the property): infer it from
+        // the first triple (column 0 is the all-A k-mer whose end point is S / 2^(k+1))
+        let s_eff = match s {
+            Some(v) => v,
+            None => lines(&data).first().and_then(|l| parse_points(l, 3).ok()).and_then(|t| t.first().cloned()).map(|t| (t[0] * (1u64 << (k + 1)) as f64).round() as u64).filter(|&v| v >= 1).unwrap_or((k * k) as u64),
+        };
         if let Err((sig, msg)) = check_oligocgr_rows(&data, &recs, k, s_eff, norm) {
             st.violate(&format!("cli.{}", sig), msg, case());
         } else if idx % 13 == 0 {
@@ -652,6 +683,71 @@ pub fn kcgr_large(ctx: &Ctx) -> Stats {
             }
         }
         st.sample(case());
+    }
+    st
+}
+
+/// thorough, best effort: a single batch whose rendered text exceeds 2 GiB (one write(2) transfers at most
+/// 0x7ffff000 bytes): whole-sequence CGR of 12 000 records x 5 000 bases, judged on size, line count and a
+/// sample of rows.  Needs ~6 GB RAM and ~2.5 GB in the scratch directory.
+pub fn huge_output(ctx: &Ctx) -> Stats {
+    let mut st = Stats::new();
+    let mut rng = Rng::keyed(ctx.seed, "c11.huge_output", 0);
+    let nrec = 12_000usize;
+    let len = 5_000usize;
+    let recs: Vec<Rec> = (0..nrec).map(|i| Rec { id: format!("g{}", i), desc: None, seq: (0..len + (i % 7)).map(|_| *rng.pick(b"ACGT")).collect() }).collect();
+    let sc = Scratch::new(ctx, "c11huge");
+    let inp = sc.write("in.fa", &ser::to_fasta(&recs, &SerOpts::plain()));
+    let outp = sc.path("out.cgr");
+    let case = Json::obj().set("layout", Json::s("12000 random ACGT records of ~5000 bases, one batch, S=1, threads=8; records not stored"));
+    note_current_case(ctx, &case);
+    st.case(true, 1);
+    st.sample(case.clone());
+    match run_cgr_file(&inp, &outp, 1, 8, 4 << 30) {
+        Err(p) => st.violate(&panic_sig(&p), p, case),
+        Ok(Err(e)) => st.violate("cgr.file.error", e, case),
+        Ok(Ok(())) => {
+            let size = std::fs::metadata(&outp).map(|m| m.len()).unwrap_or(0);
+            st.set_extra("output_bytes", Json::Int(size as i128));
+            // stream the file: count lines, check point counts for all rows and values for a sample
+            use std::io::{BufRead, BufReader};
+            let f = std::fs::File::open(&outp).unwrap();
+            let mut n = 0usize;
+            let mut bad: Option<String> = None;
+            for (i, line) in BufReader::with_capacity(1 << 22, f).split(b'\n').enumerate() {
+                let line = match line {
+                    Ok(l) => l,
+                    Err(_) => break,
+                };
+                n += 1;
+                if i >= recs.len() {
+                    continue;
+                }
+                if i % 997 == 0 || i + 3 >= recs.len() {
+                    match parse_points(&line, 2) {
+                        Ok(p) => {
+                            let pts: Vec<(f64, f64)> = p.iter().map(|v| (v[0], v[1])).collect();
+                            if let Err((_, msg)) = check_points(&recs[i].seq, 1, &pts) {
+                                bad.get_or_insert(format!("row {}: {}", i, msg));
+                            }
+                        }
+                        Err(e) => {
+                            bad.get_or_insert(format!("row {}: {}", i, e));
+                        }
+                    }
+                } else {
+                    let pts = line.iter().filter(|&&b| b == b'(').count();
+                    if pts != recs[i].seq.len() {
+                        bad.get_or_insert(format!("row {} has {} points for {} bases", i, pts, recs[i].seq.len()));
+                    }
+                }
+            }
+            if n != recs.len() {
+                st.violate("cgr.file.rowcount:huge", format!("{} lines ({} bytes) for {} records", n, size, recs.len()), case);
+            } else if let Some(b) = bad {
+                st.violate("cgr.file.row:huge", b, case);
+            }
+        }
     }
     st
 }
